@@ -216,6 +216,10 @@ class Gen:
                     ix.append(dict(a=[self.integer(-n, n - 1) for _ in range(self.integer(1, 3))])); used_adv = True
                 elif k == 'newaxis': ix.append(None); ix.append(dict(s=[None, None, None]))
                 else: ix.append(dict(s=[None, None, None]))
+            if used_adv and any(isinstance(x, int) for x in ix):
+                # NumPy treats an integer next to an index array as a second advanced index (and moves the indexed axes to the front when a slice
+                # separates them); nutils indexes axis by axis (orthogonal indexing), like for several index arrays: outside the compared catalogue
+                ix = [dict(s=[x, x + 1 if x != -1 else None, None]) if isinstance(x, int) else x for x in ix]
             if self.integer(0, 3) == 0 and v.ndim >= 2:
                 ix = ['...'] + ix[-1:]
             if self.try_add('getitem', [a], dict(index=ix)): self.features.add('getitem')
